@@ -59,7 +59,7 @@ fn history_body(src: &mut Src, st: &mut Stats) -> CaseResult {
             }
             4 if src.flip() => Some(
                 // no data references at all: the result may still depend on the document (a multi-select on null is null)
-                src.pick(&["[length('abc')]", "{k: sort(`[3,1,2]`)}", "[abs(`-1`), 'x']", "to_array(`1`)", "not_null(`null`, 'd')", "[`1`, `2`] | [0]", "'lit'", "{a: 'x', b: length(`[1]`)}", "[[length('ab')]]", "length('x') && [type(`1`)]"]).to_string(),
+                src.pick(&["`1`", "`1.0`", "[`1`, `1.0`]", "`0`", "`-0.0`", "`100`", "`1e2`", "`9007199254740992`", "`9007199254740993`", "`0.3`", "n == `1`", "n == `1.0`", "[length('abc')]", "{k: sort(`[3,1,2]`)}", "[abs(`-1`), 'x']", "to_array(`1`)", "not_null(`null`, 'd')", "[`1`, `2`] | [0]", "'lit'", "{a: 'x', b: length(`[1]`)}", "[[length('ab')]]", "length('x') && [type(`1`)]"]).to_string(),
             ),
             4 => Some(src.pick(&["sort_by(objs, &m)", "max_by(objs, &m)", "min_by(objs, &m)", "sort_by(objs, &m) | [0]", "s == 'a b'", "o.\"k k\"", "strs[?@ == 'a b']", "`{\"a b\": 1}`.\"a b\"", "join(' , ', strs)", "nope(@)", "abs('x')", "nums[::0]", "sort_by(objs, &to_array(n))", "map(&abs(s), objs)", "objs[*].abs(s)", "length(n)", "sum(strs)",
                 // by-functions whose key expression itself fails on some later element
@@ -205,7 +205,9 @@ fn history_body(src: &mut Src, st: &mut Stats) -> CaseResult {
                         asts.insert(i, got);
                     }
                     Some(prev) => {
-                        if prev != &got {
+                        // (compared through the Debug text as well: `==` on trees compares literal
+                        // numbers by value, 1 and 1.0 would pass for the same tree)
+                        if prev != &got || format!("{:?}", prev) != format!("{:?}", got) {
                             return Err(Failure::new(
                                 "history",
                                 "compile-not-deterministic",
